@@ -196,6 +196,11 @@ let handle () =
          emit (string_of_int (int_of_nat na)); emit (string_of_int (int_of_nat nb));
          emit (string_of_int (List.length amps));
          List.iter (fun ((a, b), c) -> emit (string_of_n a); emit (string_of_n b); emit (sgz c)) amps) secs
+   | "RDM" ->
+     let norb = nnat () in let sf = nbool () in
+     let np = nint () in let pat = rep np nbool in
+     let bra = nvec () in let ket = nvec () in
+     List.iter (fun c -> emit (sgz c)) (m_rdm norb sf pat bra ket)
    | "INNER" ->
      let norb = nnat () in let x = nvec () in let y = nvec () in
      emit (sgz (m_inner norb x y))
